@@ -124,9 +124,11 @@ func runCheck(id, tier string, seed int, overlay map[string][]byte, quiet bool) 
 			fmt.Printf(format, a...)
 		}
 	}
-	timeout := 10000
+	// CPU-time budgets per solver run (smt.go); the slowest obligation of the unchanged tree needs
+	// about 2.5 s, so the quick budget leaves a factor of ten for loaded machines
+	timeout := 25000
 	if tier == "thorough" {
-		timeout = 60000
+		timeout = 90000
 	}
 	var gen *genCtx
 	pkgs := plan.Pkgs
